@@ -59,12 +59,30 @@ Name = /[a-z]+/
 Text = /[^<]+/ |> `lambda x: hook('text', x)`
 start = (Tag | Text)+
 ''',
+    # 3: inline Python that builds mutable values (accumulators filled during the parse, default
+    # results): every call - and every caller, who may do to a result what it likes - gets its own
+    '''ignore /[ ]+/
+Word = /[a-z]+/ |> `lambda x: hook('word', x)`
+class Bag {
+    let acc: `[]`
+    let seen: `{}`
+    pass ("+" >> (Word |> `acc.append`))*
+    pass ("-" >> (Word |> `lambda w: seen.setdefault(w, len(seen))`))*
+    items: `acc`
+    count: `len(acc)`
+    tally: `seen`
+}
+Dflt = Word+ | `[]`
+Tbl = ("#" >> Word)+ | `{'none': []}`
+start = [Bag, (";" >> Dflt)?, ("," >> Tbl)?]
+''',
 ]
-ENTRIES = [[None, 'Line', 'Item', 'Pair', 'Num'], [None, 'Line', 'Expr', 'Id'], [None, 'Tag', 'Text']]
+ENTRIES = [[None, 'Line', 'Item', 'Pair', 'Num'], [None, 'Line', 'Expr', 'Id'], [None, 'Tag', 'Text'], [None, 'Bag', 'Dflt', 'Tbl']]
 TEXT_POOL = [
     ['(1,a);b', '12;x\ny', '(1,(2,z))', 'a;;b', '1 2', '(1,a;b', 'ab\n(3,4);c\n5', '', ';', '( 1 , a )', 'x\n\n(1,2)', 'x\n\n(1,2'],
     ['a+b', 'a+b!-c', '(a+b)!\n##', 'a+', '##\na', 'a++b', '((a))', 'a\nb\nc+d', '', '#a', 'a -b', 'a\n(b+'],
     ['<a>x</a>', '<a><b>y</b>z</a>', 'plain', '<a>x</b>', '<a>', 'x<a>\ny</a>z', '', '<a></a><b></b>', '<a>x</a>\n<b>', '<ab>\n</ab>q'],
+    ['+a +b', '+a;x y', '', ';', '+a,#k', ',', '+a+b -c-d-c;e,#f#g', '+a +', 'x', '-a-b;', '+a;,', 'x y'],
 ]
 
 
@@ -115,8 +133,32 @@ def call(module, entry, text, pos, fullparse, hookfn=None):
     finally:
         module.HOOK['fn'] = None
     if out[0] in ('OK', 'PARTIAL', 'FAIL'):
-        return deep_outcome(module, out[0], raw)
+        d = deep_outcome(module, out[0], raw)
+        if out[0] != 'FAIL':
+            scribble(raw.partial_result if out[0] == 'PARTIAL' else raw)
+        return d
     return out[:2] if out[0] == 'EXC' else out
+
+
+def scribble(val):
+    """What a caller may do with a result once it has it: every list and dict in it is modified in
+    place.  No later call may notice."""
+    stack, seen = [val], set()
+    while stack:
+        x = stack.pop()
+        if id(x) in seen:
+            continue
+        seen.add(id(x))
+        if isinstance(x, list):
+            stack.extend(x)
+            x.append('SCRIBBLED')
+        elif isinstance(x, dict):
+            stack.extend(x.values())
+            x['SCRIBBLED'] = True
+        elif isinstance(x, tuple):
+            stack.extend(x)
+        elif hasattr(x, '_fields') and hasattr(x, '_metadata'):
+            stack.extend(getattr(x, f) for f in x._fields)
 
 
 class Model:
@@ -256,7 +298,8 @@ class World:
         elif kind == 'extend':
             base, di, name = self.mods[mi % len(self.mods)]
             nm = sut.fresh_name('vfc18e_')
-            extra = {0: 'Word = /[a-z]+/ |> `lambda x: x.upper()`\n', 1: 'Line = Expr\n', 2: 'Name = /[a-z]/\n'}[di]
+            extra = {0: 'Word = /[a-z]+/ |> `lambda x: x.upper()`\n', 1: 'Line = Expr\n', 2: 'Name = /[a-z]/\n',
+                     3: 'Word = /[a-z]+/ |> `lambda x: x.upper()`\n'}[di]
             mod, err, _ = compile_desc(di, named=nm, extends=name, extra=extra)
             self.names.append(nm)
             if mod is None:
@@ -268,7 +311,7 @@ class World:
     def run_history(self, history):
         for op in history:
             k = op[0]
-            if not self.ensure(2):
+            if not self.ensure(3):
                 break
             if k == 'parse':
                 self.op_parse(*op[1:])
@@ -340,7 +383,7 @@ def run_schedule(case):
     """case: {'calls': [(mi, ei, ti, vi)..], 'schedule': [ints]}"""
     w = World()
     try:
-        if not w.ensure(2):
+        if not w.ensure(3):
             return w.problem, 0
         sched = Scheduler(len(case['calls']))
         jobs = []
@@ -384,14 +427,14 @@ def stress(n_threads, n_parses, seed):
     sys_switch = sys.getswitchinterval()
     w = World()
     try:
-        if not w.ensure(2):
+        if not w.ensure(3):
             return w.problem, 0
         rnd = random.Random(seed)
         plan = []
         for t in range(n_threads):
             calls = []
             for _ in range(n_parses):
-                mi, ei, ti, vi = rnd.randrange(3), rnd.randrange(5), rnd.randrange(12), rnd.randrange(4)
+                mi, ei, ti, vi = rnd.randrange(4), rnd.randrange(5), rnd.randrange(12), rnd.randrange(4)
                 mod, di, entry, text = w.pick(mi, ei, ti, vi)
                 calls.append((mod, di, entry, text, MODEL.expected(di, entry, text, 0, True)))
             plan.append(calls)
@@ -467,7 +510,7 @@ class C18(Check):
         from hypothesis import given, settings, seed, HealthCheck, Phase, strategies as st
         if task[0] == 'sched':
             _, s, n = task
-            callst = st.tuples(st.integers(0, 2), st.integers(0, 4), st.integers(0, 11), st.integers(0, 3))
+            callst = st.tuples(st.integers(0, 3), st.integers(0, 4), st.integers(0, 11), st.integers(0, 3))
 
             @seed(s)
             @settings(max_examples=n, database=None, deadline=None, phases=[Phase.generate],
@@ -504,7 +547,7 @@ class C18(Check):
                 if w.problem:
                     return
                 self.history.append(op)
-                if not w.ensure(2):
+                if not w.ensure(3):
                     self.report()
                     return
                 if op[0] == 'parse':
@@ -540,20 +583,20 @@ class C18(Check):
                     self.reported = True
                     res.mismatch({'history': [tuple(o) for o in self.history]})
 
-            @rule(mi=I(0, 2), ei=I(0, 4), ti=I(0, 11), vi=I(0, 3), pos=I(0, 6), full=st.booleans())
+            @rule(mi=I(0, 3), ei=I(0, 4), ti=I(0, 11), vi=I(0, 3), pos=I(0, 6), full=st.booleans())
             def parse(self, mi, ei, ti, vi, pos, full):
                 self.step(('parse', mi, ei, ti, vi, pos if pos < 4 else 0, full))
 
-            @rule(mi=I(0, 2), ei=I(0, 4), ti=I(0, 11), vi=I(0, 3), at=I(1, 4))
+            @rule(mi=I(0, 3), ei=I(0, 4), ti=I(0, 11), vi=I(0, 3), at=I(1, 4))
             def raising(self, mi, ei, ti, vi, at):
                 self.step(('raise', mi, ei, ti, vi, at))
 
-            @rule(mi=I(0, 2), ei=I(0, 4), ti=I(0, 11), vi=I(0, 3), at=I(1, 3), mi2=I(0, 2), ei2=I(0, 4), ti2=I(0, 11),
+            @rule(mi=I(0, 3), ei=I(0, 4), ti=I(0, 11), vi=I(0, 3), at=I(1, 3), mi2=I(0, 3), ei2=I(0, 4), ti2=I(0, 11),
                   vi2=I(0, 3), embed=I(0, 2))
             def nested(self, mi, ei, ti, vi, at, mi2, ei2, ti2, vi2, embed):
                 self.step(('nested', mi, ei, ti, vi, at, mi2, ei2, ti2, vi2, embed))
 
-            @rule(kind=st.sampled_from(['unrelated', 'extend', 'reuse']), mi=I(0, 2))
+            @rule(kind=st.sampled_from(['unrelated', 'extend', 'reuse']), mi=I(0, 3))
             def grammar(self, kind, mi):
                 self.step(('grammar', kind, mi))
 
@@ -612,7 +655,7 @@ class C18(Check):
         if 'history' in case:
             w = World()
             try:
-                w.ensure(2)
+                w.ensure(3)
                 ops = []
                 for op in case['history']:
                     if op[0] in ('parse', 'raise', 'nested'):
